@@ -2,35 +2,37 @@ import PocketModel.Codec.Amino
 /-! Round-trip lemmas for the amino primitives (all `uint64` / `int64` values). -/
 namespace Amino
 
-theorem decodeUvarintAux_encode (x : Nat) : ∀ (i acc : Nat) (rest : Bytes), i ≤ 9 → x * 128 ^ i < 2 ^ 64 →
-    decodeUvarintAux i acc (encodeUvarint x ++ rest) = some (acc + x * 128 ^ i, rest) := by
-  induction x using Nat.strongRecOn with
-  | _ x ih =>
-    intro i acc rest hi hx
-    rw [encodeUvarint]
+theorem decodeUvarintAux_encode (fuel : Nat) : ∀ (x i acc : Nat) (rest : Bytes), i + fuel = 9 → x * 128 ^ i < 2 ^ 64 →
+    decodeUvarintAux i acc (encodeUvarintFuel fuel x ++ rest) = some (acc + x * 128 ^ i, rest) := by
+  induction fuel with
+  | zero =>
+    intro x i acc rest hi hx
+    have h9 : i = 9 := by omega
+    subst h9
+    have hx2 : x < 2 := by simp at hx; omega
+    have hb : (UInt8.ofNat x).toNat = x := by simp; omega
+    simp only [encodeUvarintFuel, List.cons_append, List.nil_append, decodeUvarintAux, hb]
+    have h128 : x < 128 := by omega
+    rw [if_neg (by omega), if_pos h128, if_neg (by omega)]
+  | succ fuel ih =>
+    intro x i acc rest hi hx
+    have h10 : i ≠ 10 := by omega
+    have h9 : i ≠ 9 := by omega
+    rw [encodeUvarintFuel]
     by_cases h : x < 128
     · rw [if_pos h]
       have hb : (UInt8.ofNat x).toNat = x := by simp; omega
       simp only [List.cons_append, List.nil_append, decodeUvarintAux, hb]
-      have h10 : i ≠ 10 := by omega
-      rw [if_neg h10, if_pos h]
-      have : ¬ (i = 9 ∧ x > 1) := by
-        rintro ⟨rfl, h1⟩
-        simp at hx; omega
-      rw [if_neg this]
+      rw [if_neg h10, if_pos h, if_neg (by omega)]
     · rw [if_neg h]
-      have hb : (UInt8.ofNat (x % 128 + 128)).toNat = x % 128 + 128 := by simp [UInt8.toNat_ofNat]; omega
+      have hb : (UInt8.ofNat (x % 128 + 128)).toNat = x % 128 + 128 := by simp; omega
       simp only [List.cons_append, decodeUvarintAux, hb]
-      have h10 : i ≠ 10 := by omega
-      have h9 : i ≠ 9 := by
-        rintro rfl
-        simp at hx; omega
       rw [if_neg h10, if_neg (by omega)]
       have hpow : 128 ^ (i + 1) = 128 * 128 ^ i := by rw [Nat.pow_succ, Nat.mul_comm]
       have hle : x / 128 * 128 ^ (i + 1) ≤ x * 128 ^ i := by
         rw [hpow, ← Nat.mul_assoc]
         exact Nat.mul_le_mul_right _ (Nat.div_mul_le_self x 128)
-      rw [ih (x / 128) (by omega) (i + 1) _ rest (by omega) (by omega)]
+      rw [ih (x / 128) (i + 1) _ rest (by omega) (by omega)]
       congr 2
       have hdm : x % 128 + 128 * (x / 128) = x := Nat.mod_add_div x 128
       have e1 : x % 128 + 128 - 128 = x % 128 := by omega
@@ -39,8 +41,8 @@ theorem decodeUvarintAux_encode (x : Nat) : ∀ (i acc : Nat) (rest : Bytes), i 
 /-- `DecodeUvarint (EncodeUvarint x ++ rest) = (x, rest)` for every `uint64`. -/
 theorem uvarint_roundtrip (x : Nat) (hx : x < 2 ^ 64) (rest : Bytes) :
     decodeUvarint (encodeUvarint x ++ rest) = some (x, rest) := by
-  have := decodeUvarintAux_encode x 0 0 rest (by omega) (by simpa using hx)
-  simpa [decodeUvarint] using this
+  have := decodeUvarintAux_encode 9 x 0 0 rest (by omega) (by simpa using hx)
+  simpa [decodeUvarint, encodeUvarint] using this
 
 theorem zigzag_lt (i : Int) (h : isInt64 i) : zigzag i < 2 ^ 64 := by
   unfold isInt64 at h; unfold zigzag
